@@ -265,6 +265,14 @@ def key_scenarios():
                         fresh_unknown(ex, ex.st.cell(ex.scn["models"][mi]).fields["_arguments"], "undeclared")]), False)))
     out.append((f"pipeline.{GROUP}.<unknown model>.arguments.<arg0>", lambda ex: (
         L.make_key([VStr("pipeline"), VStr(GROUP), fresh_unknown(ex, ex.getattr(ex.scn["pipe"], GROUP, Frame(None, None)), "no_such_model"), VStr("arguments"), ex.scn["argn"][0]]), False)))
+    # an UNKNOWN component inserted in the middle, followed by a name that exists on the last object that did resolve (the walk must not
+    # fall back to that ancestor): detector.environment.<unknown>.temperature, ...<model0>.<unknown>.enabled, ...arguments.<unknown>.<arg0>
+    out.append(("detector.environment.<unknown>.temperature", lambda ex: (L.make_key([VStr("detector"), VStr("environment"), fresh_unknown(ex, ex.scn["env"], "inserted"), VStr("temperature")]), False)))
+    out.append(("detector.geometry.<unknown>.row", lambda ex: (L.make_key([VStr("detector"), VStr("geometry"), fresh_unknown(ex, ex.scn["geo"], "inserted"), VStr("row")]), False)))
+    out.append((f"pipeline.{GROUP}.<model0>.<unknown>.enabled", lambda ex: (
+        L.make_key([VStr("pipeline"), VStr(GROUP), ex.scn["names"][0], fresh_unknown(ex, ex.scn["models"][0], "inserted"), VStr("enabled")]), False)))
+    out.append((f"pipeline.{GROUP}.<model0>.arguments.<unknown>.<arg0>", lambda ex: (
+        L.make_key([VStr("pipeline"), VStr(GROUP), ex.scn["names"][0], VStr("arguments"), fresh_unknown(ex, ex.st.cell(ex.scn["models"][0]).fields["_arguments"], "inserted"), ex.scn["argn"][0]]), False)))
     out.append(("pipeline.charge_transfer.<model0>.arguments.<arg0>", lambda ex: (
         L.make_key([VStr("pipeline"), VStr("charge_transfer"), ex.scn["names"][0], VStr("arguments"), ex.scn["argn"][0]]), False)))
     return out
@@ -319,10 +327,13 @@ def settings(p):
     return d
 VIOLATED, DETAIL = False, ''
 for key in ('detector.geometry.rowx', 'detector.geometri.row', 'pipeline.photon_collection.illum.arguments.levle', 'pipeline.photon_collection.illumx.arguments.level',
-            'detector.characteristics.quantum_eficiency'):
+            'detector.characteristics.quantum_eficiency', 'detector.environment.bogus.temperature', 'detector.geometry.size.row',
+            'pipeline.photon_collection.illum.arguments.extra.level', 'pipeline.photon_collection.illum.argument.enabled'):
     before = settings(proc)
     try:
         had = proc.has(key)
+        if had:
+            VIOLATED, DETAIL = True, f'has({key!r}) is True for a key that does not resolve'; break
         proc.set(key, 3)
         VIOLATED, DETAIL = True, f'set({key!r}) succeeded (has() said {had}); settings now differ by ' + repr({k: v for k, v in settings(proc).items() if before.get(k, None) != v})
         break
